@@ -133,6 +133,10 @@ func checkC09(sc *Scenario) *CheckOut {
 		out.Viol = append(out.Viol, Violation{"C09", "no-progress", "run exceeded its step bound", ""})
 		return out
 	}
+	if v := poolViolation("C09", res); v != nil {
+		out.Viol = append(out.Viol, *v)
+		return out
+	}
 	hook := sc.Options.OnPanic
 	all := res.All()
 	out.Requests = len(all)
